@@ -17,10 +17,10 @@ func init() {
 	core.Register(&core.Prop{
 		ID:    "C06",
 		Level: "exploration",
-		Rule: "RateLimitedAttester.VerifyRequest on honest requests (made by pat-go's client and by the harness's own signer), every single-bit flip of every field of one honest request per client (request key, name key id, ciphertext, signature, blind, client key: exhaustive), signatures by unrelated keys, signatures of other requests, (r, N-s), r or s in {0, N}, wrong/shifted blinds, leading-zero blinds, wrong or malformed client and request keys. " +
+		Rule: "RateLimitedAttester.VerifyRequest on honest requests (made by pat-go's client and by the harness's own signer), every single-bit flip of every field of one honest request per client (request key, name key id, ciphertext, signature, blind, client key: exhaustive; every fourth flip also on a request object decoded from the wire and marshalled before the tampering, so a stale encoding cache cannot stand in for the fields), signatures by unrelated keys, signatures of other requests, (r, N-s), r or s in {0, N}, wrong/shifted blinds, leading-zero blinds, wrong or malformed client and request keys. " +
 			"Oracle: accept iff crypto/ecdsa.Verify(request key, SHA-384(type||request_key||name_key_id||len16||ciphertext), r, s) and request_key == compress(hash_to_field-blind(client key, blind, 0x0003||\"ClientBlind\")) computed by the reference; on reject: non-nil error, zero Put calls and every cached state snapshot unchanged; on accept: at most one Put, for this client only. " +
 			"distinct_nontrivial = distinct (case class, field, bit) keys",
-		Floors:      []string{"accept_agree", "reject_agree", "reject_bad_signature", "reject_key_mismatch", "reject_malformed_key", "bitflips", "state_unchanged_on_reject", "state_registered_on_accept"},
+		Floors:      []string{"accept_agree", "reject_agree", "reject_bad_signature", "reject_key_mismatch", "reject_malformed_key", "bitflips", "tampered_after_marshal", "state_unchanged_on_reject", "state_registered_on_accept"},
 		Assumptions: []string{"request structs have the shapes the wire decoder produces (49/32/1..65535/96 bytes)", "crypto/ecdsa and crypto/elliptic of the Go standard library are the reference"},
 		Run:         runC06,
 	})
@@ -179,6 +179,18 @@ func (h *c06Honest) mk(class string) *c06Case {
 	return &c06Case{req: h.request(), blind: clone(h.blind), clientKey: clone(h.signer.ClientKeyEnc), class: class}
 }
 
+// afterMarshal returns the case with its request carried by an object that was
+// decoded from the honest wire bytes and marshalled before its fields were changed.
+func (h *c06Honest) afterMarshal(cs *c06Case) *c06Case {
+	obj := new(type3.RateLimitedTokenRequest)
+	if !obj.Unmarshal(t3Request(h.signer.RequestKeyEnc, h.nameKeyID, h.ct, h.sig)) {
+		panic("honest request does not decode")
+	}
+	obj.Marshal()
+	obj.RequestKey, obj.NameKeyID, obj.EncryptedTokenRequest, obj.Signature = cs.req.RequestKey, cs.req.NameKeyID, cs.req.EncryptedTokenRequest, cs.req.Signature
+	return &c06Case{req: *obj, blind: cs.blind, clientKey: cs.clientKey, class: cs.class + ":after-marshal"}
+}
+
 func c06MkHonest(r *core.Rand, secret, blind []byte, ctLen int) *c06Honest {
 	h := &c06Honest{signer: newT3Signer(secret, blind), secret: secret, blind: blind, nameKeyID: r.Bytes(32), ct: r.Bytes(ctLen)}
 	h.sig = h.signer.sign(r, t3SignedMessage(h.signer.RequestKeyEnc, h.nameKeyID, h.ct))
@@ -265,6 +277,12 @@ func runC06(c *core.Ctx) {
 					(*f.get(cs))[bit/8] ^= 1 << uint(bit%8)
 					w.call(cs)
 					c.Class("bitflips")
+					if bit%4 == 1 {
+						// the same tampering on an object that was decoded from the wire and has
+						// already been marshalled once (its encoding cache is populated with the honest bytes)
+						w.call(h.afterMarshal(cs))
+						c.Class("tampered_after_marshal")
+					}
 				}
 				c.Distinctf("bitflip:%d:%s:%d", ci, f.name, lo)
 			}
